@@ -233,7 +233,7 @@ func TestUndMST(t *testing.T) {
 		}
 		return mstCase{G: g, W: w, Wcls: i % 3 / 2 * 2} // mostly drawn weights, one third distinct
 	}, checkMST)
-	vk.Run(t, "und-mst", vk.Opts{Quick: 4000, Thorough: 120000, NoCrumb: true}, func(t *rapid.T) mstCase {
+	vk.Run(t, "und-mst", vk.Opts{Quick: 6000, Thorough: 120000, NoCrumb: true}, func(t *rapid.T) mstCase {
 		g := drawG(t, false, 40, undClasses, []int{contOrdered, contOrdered, contSimple})
 		// one numerator per drawn edge is enough (the model has at most that many)
 		w := rapid.SliceOfN(rapid.IntRange(-8, 12), len(g.E), len(g.E)).Draw(t, "w")
